@@ -648,7 +648,7 @@ def _run_check(prop, tier='quick', seed=None, replay=None):
         # property-specific checks beyond the line protocol (compile probes etc.)
         # sources changed since the baseline (the escalation ran): also ask for the checks that depend on the BUILD PROFILE
         # (release reruns: debug assertions and overflow checks off), which the quick tier skips on an unchanged tree
-        if esc_state:
+        if esc_state or proof_broken:
             os.environ['VERIF_RELEASE_RERUN'] = '1'
         try:
             extra = mod.extra_checks(tier, rng, findings) or {}
@@ -659,7 +659,9 @@ def _run_check(prop, tier='quick', seed=None, replay=None):
         for tag, items in extra.get('known', {}).items():
             known.setdefault(tag, []).extend(items)
 
-    if esc_state and not replay and prop not in OWN_RELEASE_RERUN and os.environ.get('VERIF_GENERIC_RELEASE', '1') == '1':
+    if (esc_state or proof_broken) and not replay and prop not in OWN_RELEASE_RERUN \
+            and not any(v[0] in ('impl-violation', 'both-violate') for v in viol) \
+            and os.environ.get('VERIF_GENERIC_RELEASE', '1') == '1':
         # sources changed: the corpus and a quick sample once more against the RELEASE profile (debug assertions and overflow
         # checks off) — a documented panic must not be a `debug_assert!`, an `assert!` must not hide in the dev profile only
         try:
